@@ -66,7 +66,9 @@ def workspace(c):
     shape = c.get("shape", "plain_and_vec")
     members = {"plain_and_vec": f"pub r: {ty}, pub list: Vec<{ty}>", "map_key": f"pub r: HashMap<{ty}, String>", "map_val": f"pub r: HashMap<String, {ty}>",
                "gen_first": f"pub r: Pair<{ty}, String>", "gen_last": f"pub r: Pair<String, {ty}>",
-               "gen_nested_first": f"pub r: Vec<Pair<Option<{ty}>, Vec<u32>>>"}[shape]
+               "gen_nested_first": f"pub r: Vec<Pair<Option<{ty}>, Vec<u32>>>",
+               # the only reference carries a type override for ONE language (Swift): every other language still writes - and imports - the type
+               "swift_override": f'#[typeshare(swift(type = "Date"))] pub r: {ty}'}[shape]
     consumer = uses + f"#[typeshare]\npub struct Consumer {{ {members} }}\n"
     if shape.startswith("gen_"):
         consumer += "#[typeshare]\npub struct Pair<A, B> { pub a: A, pub b: B }\n"
